@@ -167,3 +167,94 @@ func c17TTLStream(ctx *core.Ctx) {
 		ctx.Distinct(fmt.Sprintf("c17ttl-run-%d", i))
 	})
 }
+
+// c17blank: no witness column (it would take a value on every row).  TRIGGER WHEN count(*) >= N with count(*)
+// unselected; some rows carry no reading at all (v NULL or absent), also the row at which the predicate becomes
+// true: a row is a row, the group fires there, with sum(v) / count(v) over exactly the N rows of the cycle.
+func c17BlankStream(ctx *core.Ctx) {
+	n := ctx.N(20, 400)
+	ctx.Cases("c17blank", n, workers(), func(i int, r *rand.Rand) {
+		need := 2 + r.Intn(4)
+		sql := fmt.Sprintf("SELECT k, sum(v) AS s, count(v) AS cv FROM stream GROUP BY k, GLOBAL WINDOW TRIGGER WHEN count(*) >= %d", need)
+		attrs := map[string]string{"pred_shape": "count_only", "witness_column": "none", "pred_aggs_selected": "none"}
+		c := &c17NestedCase{CaseRef: core.CaseRef{Stream: "c17blank", Index: i}, SQL: sql, T: need}
+		viol := func(kind, detail string) {
+			ctx.Violate(core.Violation{Kind: kind, Attrs: attrs, Detail: detail + "\nSQL: " + sql, Case: c})
+		}
+		keys := []string{"a", "b"}[:1+r.Intn(2)]
+		type cyc struct {
+			sum  float64
+			cnt  int
+			rows int
+			any  bool
+		}
+		cur := map[string]*cyc{}
+		want := map[string][]cyc{}
+		for j := 1; j <= 12+r.Intn(30); j++ {
+			k := pick(r, keys)
+			row := Row{"id": j, "k": k}
+			st := cur[k]
+			if st == nil {
+				st = &cyc{}
+				cur[k] = st
+			}
+			switch r.Intn(3) {
+			case 0: // no reading
+				if r.Intn(2) == 0 {
+					row["v"] = nil
+				}
+			default:
+				v := 1 + r.Intn(9)
+				row["v"] = v
+				st.sum += float64(v)
+				st.cnt++
+				st.any = true
+			}
+			st.rows++
+			if st.rows == need {
+				want[k] = append(want[k], *st)
+				cur[k] = &cyc{}
+			}
+			c.Rows = append(c.Rows, row)
+		}
+		expect := 0
+		for _, w := range want {
+			expect += len(w)
+		}
+		res := runWindow(sql, c.Rows, runOpts{Opts: eng.Opts{}, Expect: expect})
+		if res.Err != nil {
+			viol("global.execute_error", res.Err.Error())
+			return
+		}
+		if res.Overloaded || !res.Quiescent {
+			ctx.Inconclusive("c17blank: overload or not quiescent")
+			return
+		}
+		got := map[string]int{}
+		for _, d := range res.Dels {
+			for _, out := range d.Rows {
+				k, _ := out["k"].(string)
+				idx := got[k]
+				got[k]++
+				if idx >= len(want[k]) {
+					viol("global.fired_while_false", fmt.Sprintf("key %q: result #%d %s, but its %d rows complete only %d cycles of %d rows", k, idx+1, core.J(out), len(c.Rows), len(want[k]), need))
+					return
+				}
+				w := want[k][idx]
+				okSum := (w.any && numEq(out["s"], w.sum)) || (!w.any && (out["s"] == nil || numEq(out["s"], 0)))
+				if !okSum || !numEq(out["cv"], w.cnt) {
+					viol("global.wrong_aggregate", fmt.Sprintf("key %q cycle #%d (rows %d, %d of them with a reading): expected sum(v)=%v count(v)=%d, delivered %s; rows: %s", k, idx+1, need, w.cnt, w.sum, w.cnt, core.J(out), core.J(c.Rows)))
+					return
+				}
+			}
+		}
+		for _, k := range keys {
+			if got[k] != len(want[k]) {
+				viol("global.missed_fire", fmt.Sprintf("key %q: %d results delivered, %d cycles of %d rows were completed (a row without a reading is a row); rows: %s", k, got[k], len(want[k]), need, core.J(c.Rows)))
+				return
+			}
+		}
+		ctx.Count("blank.results_checked", int64(expect))
+		ctx.Case(sql+core.J(c.Rows), expect >= 2, nil)
+	})
+}
